@@ -3,10 +3,9 @@
 Everything here is built on engine.Fn facts; nothing looks at source text, line
 numbers or block numbers.
 """
-import json
 import re
 
-from .lib import PLUMBING, callee_allow, closure_args_of_call, operand_local, try_edges
+from .lib import PLUMBING, callee_allow, operand_local, try_edges
 
 # calls that hand their (first) argument's value on unchanged, for access paths
 VALUE_PRESERVING = [
@@ -253,10 +252,6 @@ def ok_return_blocks(fn):
     return [bb for bb, i, st in fn.aggregates(r"^std::result::Result$", "Ok") if st["pl"]["l"] == 0 and not st["pl"]["p"]]
 
 
-def err_return_blocks(fn):
-    return [bb for bb, i, st in fn.aggregates(r"^std::result::Result$", "Err") if st["pl"]["l"] == 0 and not st["pl"]["p"]]
-
-
 def edge_is_rejecting(fn, src, dst, extra_avoid_edges=()):
     """From the edge src->dst no `Ok(..)` return is reachable: the function answers Err or diverges."""
     if dst is None:
@@ -435,9 +430,47 @@ def conflict_loop(facts, ins, which=None):
     return out
 
 
-def slice_next_sites(sl):
-    return sorted(set(bb for c, bb, t in sl.calls(r"iter::Iterator::next$")))
+class Renamed:
+    """Re-issue another module's rule under this property's rule id (same analysis, own evidence)."""
+
+    def __init__(self, ctx, rid, statement):
+        self._ctx, self._rid, self._statement = ctx, rid, statement
+
+    def rule(self, rid, statement, floor=1):
+        return self._ctx.rule(self._rid, self._statement + " [= %s: %s]" % (rid, statement), floor)
+
+    def __getattr__(self, name):
+        return getattr(self._ctx, name)
 
 
-def non_plumbing(sl, allow):
-    return sorted(set(c for c, _ in callee_allow(sl, PLUMBING + list(allow))))
+# the code of overlaps_with before the repair of defect F3 (/repo commit "fix: a one-version from-until range overlaps ..."),
+# as two search/replace edits; used by the self-tests of C01 and C02
+_AD = "dropshot/src/api_description.rs"
+PRE_FIX_F3_EDITS = [
+    (_AD,
+     "                ApiEndpointVersions::From(earliest),\n"
+     "                r @ ApiEndpointVersions::FromUntil(OrderedVersionPair {\n"
+     "                    earliest: range_earliest,\n"
+     "                    until: _,\n"
+     "                }),\n"
+     "            ) => earliest <= range_earliest || r.matches(Some(&earliest)),\n",
+     "                ApiEndpointVersions::From(earliest),\n"
+     "                ApiEndpointVersions::FromUntil(OrderedVersionPair {\n"
+     "                    earliest: _,\n"
+     "                    until,\n"
+     "                }),\n"
+     "            ) => earliest < until,\n"),
+    (_AD,
+     "                r @ ApiEndpointVersions::FromUntil(OrderedVersionPair {\n"
+     "                    earliest: range_earliest,\n"
+     "                    until: _,\n"
+     "                }),\n"
+     "                ApiEndpointVersions::From(earliest),\n"
+     "            ) => earliest <= range_earliest || r.matches(Some(&earliest)),\n",
+     "                ApiEndpointVersions::FromUntil(OrderedVersionPair {\n"
+     "                    earliest: _,\n"
+     "                    until,\n"
+     "                }),\n"
+     "                ApiEndpointVersions::From(earliest),\n"
+     "            ) => earliest < until,\n"),
+]
